@@ -205,6 +205,11 @@ def run(ctx):
     table(ctx, 'INVERSE-SOUND', 'EightChar::get_solar_times:sound-arbitrary', [(b, ds, dh) for b in ((2000, 3, 10, 0, 30, 0), (2000, 3, 10, 14, 30, 0), (2024, 3, 1, 0, 10, 0)) for ds in (0, 1) for dh in (0, 1, 2, 3, 4)],
           arb, lambda x: [], 'for arbitrary requested characters (hour stem not following Five Rats, shifted day pillar) every returned instant has exactly those characters', str, fn_site(p, 'EightChar::get_solar_times'))
 
+    # ---- the two ends of the supported range
+    from rules import range_end as _re
+    _Ie = ctx.interp(fuel=50000000)
+    _re.c09_edge(ctx, _Ie, T(_Ie))
+
     ctx.assumptions.append('numeric layer replaced by oracles (civil date <-> day number, term instants, lunar month table): C01, C05/C06, C02/C03')
     ctx.not_decided.append('completeness of the inverse search over arbitrary year ranges on the real calendar (needs the real term instants)')
     return ('hour pillar / day roll-over as exhaustive 60x24 tables (lunar view and instant view), eight-character wiring through constructor and both providers, '
